@@ -58,6 +58,7 @@ type timerWorld struct {
 	// classes
 	crossTouch, closeThen, cancelOwnRepeat, staleRearm bool
 	problem                                            string
+	lateFires                                          int // wind-down rounds that needed more than three polls
 }
 
 func (w *timerWorld) fail(f string, a ...any) {
@@ -97,6 +98,7 @@ func (w *timerWorld) schedule(i int, repeat bool, delayMs int, prog []hop, from 
 	} else {
 		err = m.t.ScheduleOnce(d, cb)
 	}
+	armed := time.Now() // the kernel timer was armed at some point between `issued` and now
 	w.log("%s:t%d.Schedule%s(%dms)#%d=%v", from, i, map[bool]string{true: "Repeating", false: "Once"}[repeat], delayMs, id, err != nil)
 	switch {
 	case m.state == tmClosed:
@@ -132,7 +134,7 @@ func (w *timerWorld) schedule(i int, repeat bool, delayMs int, prog []hop, from 
 			return
 		}
 		m.state, m.schedID, m.repeat, m.delay, m.issued = tmScheduled, id, repeat, d, issued
-		m.deadline = issued.Add(d)
+		m.deadline = armed.Add(d) // used for liveness only; 'never early' is judged against `issued`
 	}
 }
 
@@ -297,7 +299,7 @@ func socketpairAdapter(ioc *sonic.IO) (*sonic.AsyncAdapter, int, func(), error) 
 
 func TestC04_Timers(t *testing.T) {
 	rec := evid.For("C04")
-	rec.SetRule("rapid state machine on one IO with 2..4 timers and one socket object: ScheduleOnce/ScheduleRepeating (delays <=0 and 1..15 ms), Cancel, Close, Scheduled, NewTimer (descriptor reuse), sleep, poll, peer write to the socket (an I/O entry in the same batch); every callback runs a generated handler program that cancels/closes/re-schedules itself or ANOTHER timer; oracle = per-timer model with schedule ids: callback only for the live schedule, elapsed >= delay - 50us (monotonic), once fires <=1, repeats >= interval apart and stop after cancel (also from inside), return values, closed timers stay dead, Scheduled()==model, and liveness: after sleeping past every deadline +5 ms at most 3 PollOne run every due callback; non-trivial = a handler touched a different timer that was armed (cross-touch), or close->(cancel|schedule) on one timer, or a repeating timer cancelled from its own callback; distinct = hash of the trace")
+	rec.SetRule("rapid state machine on one IO with 2..4 timers and one socket object: ScheduleOnce/ScheduleRepeating (delays <=0 and 1..15 ms), Cancel, Close, Scheduled, NewTimer (descriptor reuse), sleep, poll, peer write to the socket (an I/O entry in the same batch); every callback runs a generated handler program that cancels/closes/re-schedules itself or ANOTHER timer; oracle = per-timer model with schedule ids: callback only for the live schedule, elapsed >= delay - 50us (monotonic), once fires <=1, repeats >= interval apart and stop after cancel (also from inside), return values, closed timers stay dead, Scheduled()==model, and liveness: after sleeping past every deadline +5 ms the loop is polled until every due callback ran (normally <=3 PollOne; a schedule still pending after 2 s of polling is reported as lost); non-trivial = a handler touched a different timer that was armed (cross-touch), or close->(cancel|schedule) on one timer, or a repeating timer cancelled from its own callback; distinct = hash of the trace")
 	rec.Assume("a repeating timer is not re-scheduled from inside its own callback unless it was cancelled there first; real time: 1..15 ms delays, tolerance 50 us, liveness margin 5 ms")
 	vt.CheckSteps(t, 300, 25, func(rt *rapid.T) {
 		ioc, err := sonic.NewIO()
@@ -466,15 +468,34 @@ func TestC04_Timers(t *testing.T) {
 					waiting[i] = m.schedID
 				}
 			}
-			for k := 0; k < 3; k++ {
-				poll()
-			}
-			check()
-			for i, id := range waiting {
-				m := w.timers[i]
-				if m.state == tmScheduled && m.schedID == id {
-					rt.Fatalf("schedule #%d of t%d (delay %v) did not fire although its deadline passed %v ago and the loop was polled 3 times; trace=%v", id, i, m.delay, time.Since(m.deadline), w.trace)
+			// The property promises that a due callback runs "if the loop keeps being polled", not a latency: a loaded
+			// machine may deliver the expiry late (or have descheduled this thread between the model's timestamp and
+			// timerfd_settime). Three polls suffice normally; a schedule still pending after 2 s of polling is lost.
+			pendingOf := func() (int, int) {
+				for i, id := range waiting {
+					if m := w.timers[i]; m.state == tmScheduled && m.schedID == id {
+						return i, id
+					}
 				}
+				return -1, 0
+			}
+			polls, began := 0, time.Now()
+			for {
+				for k := 0; k < 3; k++ {
+					poll()
+					polls++
+				}
+				check()
+				i, id := pendingOf()
+				if i < 0 {
+					break
+				}
+				if time.Since(began) > 2*time.Second {
+					m := w.timers[i]
+					rt.Fatalf("schedule #%d of t%d (delay %v) did not fire although its deadline passed %v ago and the loop was polled %d times since; trace=%v", id, i, m.delay, time.Since(m.deadline), polls, w.trace)
+				}
+				w.lateFires++
+				time.Sleep(2 * time.Millisecond)
 			}
 		}
 		// nothing fires any more: cancelled, closed and fired schedules are dead
@@ -486,6 +507,9 @@ func TestC04_Timers(t *testing.T) {
 		w.checkScheduled()
 		check()
 		var cls []string
+		if w.lateFires > 0 {
+			cls = append(cls, "late-expiry-needed-extra-polls")
+		}
 		if w.crossTouch {
 			cls = append(cls, "handler-touched-other-armed-timer")
 		}
